@@ -234,26 +234,32 @@ fn main() {
     // with layer seeds {1,2}, 4 operations from {b4, b7c} at dim 2 with seed 1.
     let cfgs = all_cfgs(&[2, 8], false);
     let all = vec!["empty", "b4", "b7c"];
-    type Step = (usize, Vec<&'static str>, Vec<usize>, Vec<u64>);
+    // kind "layercap": tight regime with max_layers 1 / 2 (thorough: also 3 with scale_factor 3), so that nodes sit on the cap layer
+    type Step = (usize, Vec<&'static str>, Vec<usize>, Vec<u64>, &'static str);
     let plan: Vec<Step> = run.tier.pick(
         vec![
-            (0, all.clone(), vec![2, 8], vec![1]),
-            (1, all.clone(), vec![2, 8], vec![1]),
-            (2, all.clone(), vec![2, 8], vec![1]),
-            (3, vec!["b7c"], vec![2], vec![1]),
+            (0, all.clone(), vec![2, 8], vec![1], "std"),
+            (1, all.clone(), vec![2, 8], vec![1], "std"),
+            (2, all.clone(), vec![2, 8], vec![1], "std"),
+            (3, vec!["b7c"], vec![2], vec![1], "std"),
+            (0, vec!["b4", "b7c"], vec![2], vec![1], "layercap"),
+            (1, vec!["b4", "b7c"], vec![2], vec![1], "layercap"),
         ],
         vec![
-            (0, all.clone(), vec![2, 8], vec![1, 2]),
-            (1, all.clone(), vec![2, 8], vec![1, 2]),
-            (2, all.clone(), vec![2, 8], vec![1, 2]),
-            (3, all.clone(), vec![2, 8], vec![1, 2]),
-            (4, vec!["b4", "b7c"], vec![2], vec![1]),
+            (0, all.clone(), vec![2, 8], vec![1, 2], "std"),
+            (1, all.clone(), vec![2, 8], vec![1, 2], "std"),
+            (2, all.clone(), vec![2, 8], vec![1, 2], "std"),
+            (3, all.clone(), vec![2, 8], vec![1, 2], "std"),
+            (0, all.clone(), vec![2, 8], vec![1, 2], "layercap"),
+            (1, all.clone(), vec![2, 8], vec![1, 2], "layercap"),
+            (2, all.clone(), vec![2, 8], vec![1, 2], "layercap"),
+            (4, vec!["b4", "b7c"], vec![2], vec![1], "std"),
         ],
     );
     let mut all_seeds = BTreeSet::new();
     let mut completed: Vec<String> = Vec::new();
     let mut max_journal = 0usize;
-    for (depth, bases, dims, seeds) in plan {
+    for (depth, bases, dims, seeds, kind) in plan {
         all_seeds.extend(seeds.iter().copied());
         if !run.in_budget() {
             run.cap_hit(&format!("time budget: histories of {depth} operations not started"));
@@ -261,12 +267,20 @@ fn main() {
         }
         // quick, 3 operations: Euclidean and Cosine only (all four metrics up to 2 operations)
         let quick_deep = run.tier == vcore::Tier::Quick && depth == 3;
-        let cs: Vec<Cfg> = cfgs
-            .iter()
-            .filter(|c| dims.contains(&c.dim))
-            .filter(|c| !quick_deep || matches!(c.metric, anda_db_hnsw::DistanceMetric::Euclidean | anda_db_hnsw::DistanceMetric::Cosine))
-            .cloned()
-            .collect();
+        let cs: Vec<Cfg> = if kind == "layercap" {
+            let ec = [anda_db_hnsw::DistanceMetric::Euclidean, anda_db_hnsw::DistanceMetric::Cosine];
+            if run.tier == vcore::Tier::Quick {
+                vhnsw::sut::layer_cap_cfgs(&dims, &ec, &[(1, None), (2, None)])
+            } else {
+                vhnsw::sut::layer_cap_cfgs(&dims, &vhnsw::sut::METRICS, &[(1, None), (2, None), (3, Some(3.0))])
+            }
+        } else {
+            cfgs.iter()
+                .filter(|c| dims.contains(&c.dim))
+                .filter(|c| !quick_deep || matches!(c.metric, anda_db_hnsw::DistanceMetric::Euclidean | anda_db_hnsw::DistanceMetric::Cosine))
+                .cloned()
+                .collect()
+        };
         let work = items(&cs, &bases, &seeds, depth);
         let deadline = Instant::now() + std::time::Duration::from_secs_f64(run.remaining_s());
         let aggs: Vec<Agg> = util::par_map(work, util::n_threads(), |item| run_item(&item, deadline));
@@ -297,7 +311,7 @@ fn main() {
         }
         run.set("max_flush_writes", json!(max_journal));
         if complete {
-            completed.push(format!("{depth} ops then the interrupted flush: bases {bases:?}, dims {dims:?}, {} configurations, layer seeds {seeds:?}", cs.len()));
+            completed.push(format!("{kind}: {depth} ops then the interrupted flush: bases {bases:?}, dims {dims:?}, {} configurations, layer seeds {seeds:?}", cs.len()));
         } else {
             run.cap_hit(&format!("time budget: histories of {depth} operations not completed"));
             break;
